@@ -13,10 +13,13 @@ import (
 	"go/ast"
 	"go/parser"
 	"go/token"
+	"go/types"
 	"os"
+	"path/filepath"
 	"sort"
 	"strings"
 
+	"golang.org/x/tools/go/packages"
 	"golang.org/x/tools/go/ssa"
 	"golang.org/x/tools/go/ssa/ssautil"
 )
@@ -47,7 +50,7 @@ func hookVarName(fn *ssa.Function) string {
 }
 
 // buildHookOverlay returns overlay entries (path -> temp file) and hook descriptors.
-func buildHookOverlay(prog *ssa.Program, cfg *HarnessConfig) (map[string]string, []hookInfo, error) {
+func buildHookOverlay(prog *ssa.Program, cfg *HarnessConfig, under *packages.Package) (map[string]string, []hookInfo, error) {
 	if len(cfg.Replacements) == 0 {
 		return nil, nil, nil
 	}
@@ -66,6 +69,7 @@ func buildHookOverlay(prog *ssa.Program, cfg *HarnessConfig) (map[string]string,
 		tail  []string
 	}
 	files := map[string]*fileEdits{}
+	var siteDecls []string
 	var hooks []hookInfo
 	var keys []string
 	for k := range want {
@@ -86,6 +90,92 @@ func buildHookOverlay(prog *ssa.Program, cfg *HarnessConfig) (map[string]string,
 		}
 		fset := prog.Fset
 		fname := fset.Position(decl.Pos()).Filename
+		if strings.Contains(fname, "/pkg/mod/") {
+			// the go tool refuses overlays beneath GOMODCACHE: hook the call sites in the package under test instead.
+			//   f(args)  ->  verifHookSite_f(f)(args)      with a generic selector that prefers the hook when one is set
+			hv := hookVarName(fn)
+			site := "verifHookSite" + strings.TrimPrefix(hv, "VerifHook")
+			nsites := 0
+			for _, file := range under.Syntax {
+				ffn := fset.Position(file.Pos()).Filename
+				if _, err := os.Stat(ffn); err != nil {
+					continue // overlay-only (harness) file
+				}
+				ast.Inspect(file, func(nd ast.Node) bool {
+					call, ok := nd.(*ast.CallExpr)
+					if !ok {
+						return true
+					}
+					var id *ast.Ident
+					switch f := call.Fun.(type) {
+					case *ast.Ident:
+						id = f
+					case *ast.SelectorExpr:
+						id = f.Sel
+					}
+					if id == nil || under.TypesInfo.Uses[id] != fn.Object() {
+						return true
+					}
+					fe := files[ffn]
+					if fe == nil {
+						fe = &fileEdits{}
+						files[ffn] = fe
+					}
+					recvArg := ""
+					if fn.Signature.Recv() != nil {
+						sel, ok := call.Fun.(*ast.SelectorExpr)
+						if !ok {
+							return true
+						}
+						// method: pass the receiver expression too (evaluated twice; receivers here are plain variables/fields)
+						rsrc, err := os.ReadFile(ffn)
+						if err != nil {
+							return true
+						}
+						recvArg = ", " + string(rsrc[fset.Position(sel.X.Pos()).Offset:fset.Position(sel.X.End()).Offset])
+						if _, isPtr := fn.Signature.Recv().Type().(*types.Pointer); isPtr {
+							if _, argPtr := under.TypesInfo.TypeOf(sel.X).Underlying().(*types.Pointer); !argPtr {
+								recvArg = ", &" + recvArg[2:]
+							}
+						}
+					}
+					fe.edits = append(fe.edits,
+						textEdit{off: fset.Position(call.Fun.Pos()).Offset, text: site + "("},
+						textEdit{off: fset.Position(call.Fun.End()).Offset, text: recvArg + ")"})
+					nsites++
+					return true
+				})
+			}
+			if nsites == 0 {
+				return nil, nil, fmt.Errorf("replacement target %s lives in the module cache and is not called from %s: no place to hook it natively", k, cfg.Package)
+			}
+			siteDecls = append(siteDecls, fmt.Sprintf(`
+var %[1]s any
+
+func %[2]s[F any](orig F, recv ...any) F {
+	if %[1]s == nil {
+		return orig
+	}
+	if h, ok := %[1]s.(F); ok && len(recv) == 0 {
+		return h
+	}
+	hv := reflect.ValueOf(%[1]s)
+	ft := reflect.TypeOf(orig)
+	return reflect.MakeFunc(ft, func(in []reflect.Value) []reflect.Value {
+		all := in
+		if len(recv) > 0 {
+			all = append([]reflect.Value{reflect.ValueOf(recv[0])}, in...)
+		}
+		if ft.IsVariadic() {
+			return hv.CallSlice(all)
+		}
+		return hv.Call(all)
+	}).Interface().(F)
+}
+`, hv, site))
+			hooks = append(hooks, hookInfo{pkgPath: cfg.Package, hookVar: hv, harnessF: want[k]})
+			continue
+		}
 		src, err := os.ReadFile(fname)
 		if err != nil {
 			return nil, nil, err
@@ -152,6 +242,15 @@ func buildHookOverlay(prog *ssa.Program, cfg *HarnessConfig) (map[string]string,
 		hooks = append(hooks, hookInfo{pkgPath: fn.Pkg.Pkg.Path(), hookVar: hv, harnessF: want[k]})
 	}
 	out := map[string]string{}
+	if len(siteDecls) > 0 {
+		tmp, err := os.CreateTemp("", "verif_hooksites_*.go")
+		if err != nil {
+			return nil, nil, err
+		}
+		fmt.Fprintf(tmp, "package %s\n\nimport \"reflect\"\n%s", under.Name, strings.Join(siteDecls, ""))
+		tmp.Close()
+		out[filepath.Join(repoRoot, cfg.Dir, "zz_verif_hooksites.go")] = tmp.Name()
+	}
 	for fname, fe := range files {
 		src, _ := os.ReadFile(fname)
 		sort.Slice(fe.edits, func(i, j int) bool { return fe.edits[i].off > fe.edits[j].off })
